@@ -59,6 +59,9 @@ def configs(tier, seed):
         for rk in ('pipe', 'pipe-whole', 'maildrop', 'smtp', 'lmtp', 'http'):
             if b in ('dict', 'disk') or not q:
                 cfgs.append(dict(backend=b, backoff='r0x2', n=2, messages=1, d=0, dd=3 if q else 4, relay_kind=rk, menu={}))
+        if b in ('dict', 'disk'):
+            # one HttpRelay object (pool of one) serving every attempt of the execution
+            cfgs.append(dict(backend=b, backoff='r0x2', n=2, messages=1, d=0, dd=3, relay_kind='http', persistent_relay=True, menu={}, max_steps=2000))
         if not q:
             cfgs.append(dict(backend=b, backoff='r10-20', n=3, messages=1, d=1, dd=3, menu={}))
             cfgs.append(dict(backend=b, backoff='r10', n=2, messages=2, d=2, dd=2, menu={}, relay_pool=2, store_pool=2))
